@@ -253,6 +253,7 @@ def run_case(case):
         for k, op in enumerate(case['ops']):
             tok = op[0]
             rig.calls = 0
+            paused_before = rig.transport.paused
             try:
                 if tok == 'ws':
                     peer.window_update(rig.streams[op[1]].id, op[2])
@@ -284,7 +285,8 @@ def run_case(case):
                 cw, sws, mf = rig.windows()
                 obs['records'].append({
                     'chunks': pending_frames, 'pcs': rig.pcs(), 'cw': cw, 'sws': sws, 'mf': mf,
-                    'wr': rig.conn.write_ready.is_set(), 'paused': rig.transport.paused, 'op': k})
+                    'wr': rig.conn.write_ready.is_set(), 'paused': rig.transport.paused, 'op': k,
+                    'paused_before': paused_before})
                 pending_frames = []
         obs['violations'] = [type(v).__name__ for v in peer.violations]
         obs['status'] = list(rig.pcs())
